@@ -602,7 +602,8 @@ def hasher_parts(rng, n, thorough):
             m = rng.randrange(3, 9)
             ps.append(",".join(str(rng.randrange(1, max(2, min(n, 2 * n // m + 2)))) for _ in range(m)) + ",*")
     if n > 4000:
-        ps = [p for p in ps if p != "1"] + [str(rng.choice((3, 7, 64, 4096)))]
+        lim = 2000 if thorough else 150                     # at most this many update calls per job
+        ps = [p for p in ps if p != "1"] + [str(rng.choice([k for k in (3, 7, 64, 509, 4096) if n // k <= lim] or [4096]))]
     if n > 70 and "1" in ps and not thorough:
         ps.remove("1")
     return list(dict.fromkeys(ps))
